@@ -14,7 +14,8 @@ LEVEL_TEXT = ("Clause-level static rules: in array_smashing strong updates happe
               "every path (copy-modify-writeback), loads overwrite or forget the lhs on every path, and no array operation sets the "
               "state to bottom except under a bottom/unsat guard; no store is skipped silently (r8); backward stores make every overwritten cell "
               "lose its post-constraint and a backward range store meets the statement's invariant once (r9). Cell-overlap arithmetic and "
-              "symbolic-offset reasoning are NOT decided.")
+              "symbolic-offset reasoning are NOT decided."
+              " Every iteration of a smashing loop stores the cell into the summary or gives the smashing up (statements inside log macros do not count).")
 ASSUMPTIONS = ["the base domain's weak_assign / expand / array operations are sound (C03)",
                "offset_map overlap computations (get_overlap_cells*) are complete (numeric, not decided)"]
 
